@@ -213,7 +213,8 @@ func AudioPayload(sound int, raw []byte) []byte {
 	case SoundG711U:
 		return append([]byte{0x82}, raw...)
 	case SoundOpus:
-		return append([]byte{0xdf, 0x01}, raw...)
+		// one header byte, as lal's own remuxers write and read it (there is no packet-type byte outside AAC)
+		return append([]byte{0xdf}, raw...)
 	}
 	return append([]byte{byte(sound)<<4 | 0xf}, raw...)
 }
